@@ -148,6 +148,10 @@ std::vector<TecmpPayloadPtr> TECMP::Decoder::GetInterfacePayload(const uint8_t* 
 }
 TecmpPayloadPtr TECMP::Decoder::GetCanPayload(const uint8_t* payloadData, const std::size_t size)
 {
+    // arbitration id, data length and the data bytes must lie inside the payload
+    if (size < 5 || size - 5 < payloadData[4])
+        return {};
+
     CanPayload payload(payloadData, size);
     if (payload.isValid())
         return std::make_shared<Payload>(payload);
